@@ -107,8 +107,26 @@ impl<'a> MemfsGuard<'a> {
 }
 
 /// Provides a purely memory based, multi-thread safe [`VirtualFileSystem`] backend implementation
+#[cfg(rivia_verif)]
+impl<'a> Drop for MemfsGuard<'a> {
+    fn drop(&mut self) {
+        use crate::verif::{guard_event, GuardEvent, GuardKind};
+        guard_event(GuardEvent::Released(match self {
+            MemfsGuard::Read(_) => GuardKind::Read,
+            MemfsGuard::Write(_) => GuardKind::Write,
+        }));
+    }
+}
+
 #[derive(Debug)]
 pub struct Memfs(Arc<RwLock<MemfsInner>>);
+
+#[cfg(rivia_verif)]
+impl Memfs {
+    pub(crate) fn verif_inner(&self) -> &Arc<RwLock<MemfsInner>> {
+        &self.0
+    }
+}
 
 // Encapsulate the Memfs implementation for interior mutability and transparent multi-thread safety
 #[derive(Debug)]
@@ -149,13 +167,33 @@ impl Memfs {
     }
 
     // Create a MemfsGuard::Read
+    #[cfg(not(rivia_verif))]
     pub(crate) fn read_guard(&self) -> MemfsGuard {
         MemfsGuard::Read(self.0.read().unwrap())
     }
 
+    #[cfg(rivia_verif)]
+    pub(crate) fn read_guard(&self) -> MemfsGuard {
+        use crate::verif::{guard_event, GuardEvent, GuardKind};
+        guard_event(GuardEvent::BeforeAcquire(GuardKind::Read));
+        let guard = MemfsGuard::Read(self.0.read().unwrap());
+        guard_event(GuardEvent::Acquired(GuardKind::Read));
+        guard
+    }
+
     // Create a MemfsGuard::write
+    #[cfg(not(rivia_verif))]
     pub(crate) fn write_guard(&self) -> MemfsGuard {
         MemfsGuard::Write(self.0.write().unwrap())
+    }
+
+    #[cfg(rivia_verif)]
+    pub(crate) fn write_guard(&self) -> MemfsGuard {
+        use crate::verif::{guard_event, GuardEvent, GuardKind};
+        guard_event(GuardEvent::BeforeAcquire(GuardKind::Write));
+        let guard = MemfsGuard::Write(self.0.write().unwrap());
+        guard_event(GuardEvent::Acquired(GuardKind::Write));
+        guard
     }
 
     /// Convert the given VfsEntry to a MemfsEntry or fail
